@@ -29,6 +29,9 @@ Local Open Scope string_scope.
 Fixpoint nats_eqb (a b : list nat) : bool :=
   match a, b with [], [] => true | x :: a', y :: b' => Nat.eqb x y && nats_eqb a' b' | _, _ => false end.
 (* per node: fields, the successor list and the flags (foreign, manifest) the harness gave to the acceptor *)
+(* removeForeignLayers on each successor list: the real function's output vs the in-place loop of the model *)
+Definition rfl_ok (flags : list bool) (l : list (list nat * list nat)) : bool :=
+  forallb (fun x => nats_eqb (remove_foreign_inplace (fun n => nth n flags false) (fst x)) (snd x)) l.
 Definition links_ok (l : list (mfields * (list nat * (bool * bool)))) : bool :=
   forallb (fun x => match x with (f, (succ, (fo, mf))) =>
      nats_eqb (successors f) succ && Bool.eqb (is_foreign_mt (f_mt f)) fo && Bool.eqb (is_manifest_mt (f_mt f)) mf end) l.
@@ -52,7 +55,19 @@ def _links_goal(case):
         lst = lambda v: "[" + "; ".join([] if v[1:] == "-" else v[1:].split("+")) + "]"
         rows.append('(mkFields "%s" %s %s %s %s %s, (%s, (%s, %s)))' % (
             mt, opt(S), opt(C), lst(L), lst(M), lst(B), _nats(c), _b("f" in a), _b("m" in a)))
-    return "links_ok [%s] = true" % "; ".join(rows)
+    goal = "links_ok [%s] = true" % "; ".join(rows)
+    rf = [x for x in f if x.startswith("rfl=")]
+    if rf:
+        flags = "[" + "; ".join(_b("f" in sp.split("/")[0]) for sp in specs) + "]"
+        pairs = []
+        for ent in rf[0][4:].split(";"):
+            nid, out = ent.split(":")
+            if "?" in out:
+                return "false = true"
+            succ = specs[int(nid)].split("/")[2]
+            pairs.append("(%s, [%s])" % (_nats(succ), "; ".join([] if out == "-" else out.split("+"))))
+        goal += " /\\ rfl_ok %s [%s] = true" % (flags, "; ".join(pairs))
+    return goal
 
 
 _PRO_PRELUDE = """From Oras Require Import Base.Prelude Model.CopySpec Model.CopyTop.
@@ -130,7 +145,7 @@ def links_check(d, tier, coq, build):
     with open(vf, "w") as f:
         f.write(_LINKS_PRELUDE)
         for i, g in goals:
-            f.write("\n(* %s *)\nGoal %s.\nProof. vm_compute. reflexivity. Qed.\n" % (i, g))
+            f.write("\n(* %s *)\nGoal %s.\nProof. vm_compute. repeat split; reflexivity. Qed.\n" % (i, g))
     p = subprocess.run(["coqc", "-R", coq, "Oras", "-w", "-notation-overridden", vf], cwd=vdir, timeout=1500,
                        stdout=subprocess.PIPE, stderr=subprocess.STDOUT, text=True)
     with open(os.path.join(d, "links_check.txt"), "w") as f:
